@@ -32,7 +32,16 @@ fn leaf_values(n: &str) -> Vec<E> {
         "bool" => vec![E::Bool(true), E::Bool(false)],
         "string" => vec![s("plain"), s("")],
         "unit" => vec![E::Unit],
-        _ => vec![E::Float("1.5".into(), false, false), E::Float("0.1".into(), false, false), E::Float("100000000000000000000000.0".into(), false, false)],
+        // (fdiv is a helper of the program: run-time division, so that NaN and the infinities arise)
+        _ => vec![
+            E::Float("1.5".into(), false, false),
+            E::Float("0.1".into(), false, false),
+            E::Float("100000000000000000000000.0".into(), false, false),
+            call("fdiv", vec![E::Float("0.0".into(), false, false), E::Float("0.0".into(), false, false)]),
+            call("fdiv", vec![E::Float("1.0".into(), false, false), E::Float("0.0".into(), false, false)]),
+            call("fdiv", vec![E::Unary(UnOp::Neg, Box::new(E::Float("1.0".into(), false, false))), E::Float("0.0".into(), false, false)]),
+            E::Unary(UnOp::Neg, Box::new(E::Float("0.0".into(), false, false))),
+        ],
     }
 }
 
@@ -121,6 +130,10 @@ fn cases_list(tier: Tier) -> Vec<Value> {
 fn build(case: &Value, tier: Tier) -> Option<Program> {
     let mut n = Names::new();
     let mut items: Vec<Item> = Vec::new();
+    {
+        let (fa, fb) = (n.fresh("a"), n.fresh("b"));
+        items.push(fn_def("fdiv", vec![(fa, Ty::F64), (fb, Ty::F64)], Some(Ty::F64), bin(BinOp::Div, v(fa), v(fb))));
+    }
     let mut b: Vec<Stmt> = Vec::new();
     match case["kind"].as_str().unwrap() {
         "strings" => {
